@@ -354,6 +354,177 @@ func factsC17Utils(r *Repo) []Fact {
 		where+": InvokableRun / StreamableRun: `var inst T`; inst is only assigned generic.NewInstance[T]() (once, inside the call) or the custom unmarshaller's value; sonic.UnmarshalString(args, &inst); Fn(ctx, inst, ...); the wrapper structs have no field of the request type")}
 }
 
+// ---- family `readers`: the concatenation allocates its result ----
+
+func c17RootIdent(e ast.Expr) string {
+	for {
+		switch v := e.(type) {
+		case *ast.Ident:
+			return v.Name
+		case *ast.IndexExpr:
+			e = v.X
+		case *ast.SelectorExpr:
+			e = v.X
+		case *ast.StarExpr:
+			e = v.X
+		case *ast.ParenExpr:
+			e = v.X
+		case *ast.SliceExpr:
+			e = v.X
+		default:
+			return ""
+		}
+	}
+}
+
+// c17InputAliases: the first parameter, the range variables over it, and variables defined
+// from an index / field of one of those.
+func c17InputAliases(fd *ast.FuncDecl) map[string]bool {
+	al := map[string]bool{}
+	if fd.Type.Params == nil || len(fd.Type.Params.List) == 0 || len(fd.Type.Params.List[0].Names) == 0 {
+		return al
+	}
+	al[fd.Type.Params.List[0].Names[0].Name] = true
+	for changed := true; changed; {
+		changed = false
+		ast.Inspect(fd.Body, func(x ast.Node) bool {
+			switch v := x.(type) {
+			case *ast.RangeStmt:
+				if al[c17RootIdent(v.X)] {
+					if id, ok := v.Value.(*ast.Ident); ok && id.Name != "_" && !al[id.Name] {
+						al[id.Name] = true
+						changed = true
+					}
+				}
+			case *ast.AssignStmt:
+				if v.Tok == token.DEFINE && len(v.Lhs) == len(v.Rhs) {
+					for i, r := range v.Rhs {
+						if _, isCall := r.(*ast.CallExpr); isCall {
+							continue
+						}
+						if id, ok := v.Lhs[i].(*ast.Ident); ok && al[c17RootIdent(r)] && !al[id.Name] {
+							al[id.Name] = true
+							changed = true
+						}
+					}
+				}
+			}
+			return true
+		})
+	}
+	return al
+}
+
+// c17WritesThrough: some assignment / inc-dec / copy writes through one of the names.
+func c17WritesThrough(fd *ast.FuncDecl, names map[string]bool) bool {
+	bad := false
+	ast.Inspect(fd.Body, func(x ast.Node) bool {
+		switch v := x.(type) {
+		case *ast.AssignStmt:
+			for _, l := range v.Lhs {
+				if _, plain := l.(*ast.Ident); plain {
+					continue // rebinding a local name writes nothing
+				}
+				if names[c17RootIdent(l)] {
+					bad = true
+				}
+			}
+		case *ast.IncDecStmt:
+			if _, plain := v.X.(*ast.Ident); !plain && names[c17RootIdent(v.X)] {
+				bad = true
+			}
+		case *ast.CallExpr:
+			if id, ok := v.Fun.(*ast.Ident); ok && id.Name == "copy" && len(v.Args) == 2 && names[c17RootIdent(v.Args[0])] {
+				bad = true
+			}
+		}
+		return !bad
+	})
+	return bad
+}
+
+func factsC17Concat(r *Repo) []Fact {
+	const file = "schema/message.go"
+	sp := r.Pkg("schema")
+	var out []Fact
+	arr, _ := sp.Func("", "concatMessageArray")
+	if arr == nil || arr.Body == nil {
+		out = append(out, unknownFact("concatArrayAllocates", "Bool", "false", file, "concatMessageArray not found"))
+	} else {
+		al := c17InputAliases(arr)
+		made, rebound := false, false
+		ast.Inspect(arr.Body, func(x ast.Node) bool {
+			if as, ok := x.(*ast.AssignStmt); ok {
+				for i, l := range as.Lhs {
+					if c17IsIdent(l, "ret") {
+						if as.Tok == token.DEFINE && len(as.Lhs) == len(as.Rhs) && exprString(as.Rhs[i]) == "make([]*Message,arrayLen)" {
+							made = true
+						} else {
+							rebound = true
+						}
+					}
+				}
+			}
+			return true
+		})
+		returnsRet := false
+		ast.Inspect(arr.Body, func(x ast.Node) bool {
+			if rs, ok := x.(*ast.ReturnStmt); ok && len(rs.Results) == 2 && c17IsIdent(rs.Results[0], "ret") {
+				returnsRet = true
+			}
+			return true
+		})
+		out = append(out, boolFact("concatArrayAllocates", made && !rebound && returnsRet && !al["ret"] && !c17WritesThrough(arr, al),
+			file+": concatMessageArray: ret := make([]*Message, arrayLen) (never rebound), returned; no assignment, inc/dec or copy through the argument, the lists ranged from it or the messages taken from them"))
+	}
+	cm, _ := sp.Func("", "ConcatMessages")
+	if cm == nil || cm.Body == nil {
+		out = append(out, unknownFact("concatMessagesAllocates", "Bool", "false", file, "ConcatMessages not found"))
+	} else {
+		al := c17InputAliases(cm)
+		own := false
+		ast.Inspect(cm.Body, func(x ast.Node) bool {
+			switch v := x.(type) {
+			case *ast.ValueSpec:
+				for i, nm := range v.Names {
+					if nm.Name == "ret" && i < len(v.Values) {
+						if cl, ok := v.Values[i].(*ast.CompositeLit); ok && exprString(cl.Type) == "Message" && len(cl.Elts) == 0 {
+							own = true
+						}
+					}
+				}
+			case *ast.AssignStmt:
+				for i, l := range v.Lhs {
+					if c17IsIdent(l, "ret") {
+						ri := i
+						if ri >= len(v.Rhs) {
+							ri = len(v.Rhs) - 1
+						}
+						cl, ok := v.Rhs[ri].(*ast.CompositeLit)
+						if ok && v.Tok == token.DEFINE && exprString(cl.Type) == "Message" && len(cl.Elts) == 0 {
+							own = true
+						} else {
+							own = false
+							al["ret"] = true // rebound to something else: treat as an alias
+						}
+					}
+				}
+			}
+			return true
+		})
+		returnsOwn := false
+		ast.Inspect(cm.Body, func(x ast.Node) bool {
+			if rs, ok := x.(*ast.ReturnStmt); ok && len(rs.Results) == 2 && exprString(rs.Results[0]) == "&ret" {
+				returnsOwn = true
+			}
+			return true
+		})
+		out = append(out, boolFact("concatMessagesAllocates", own && returnsOwn && !al["ret"] && !c17WritesThrough(cm, al),
+			file+": ConcatMessages: ret = Message{} of its own, `return &ret`; no assignment, inc/dec or copy through msgs or the messages ranged from it"))
+	}
+	return out
+}
+
 func factsC17(r *Repo) []Fact {
 	var out []Fact
 	cp := r.Pkg("compose")
@@ -582,5 +753,8 @@ func factsC17(r *Repo) []Fact {
 
 	// ---- utilsFreshRequestPerCall (family `utils`) ----
 	out = append(out, factsC17Utils(r)...)
+
+	// ---- concatArrayAllocates / concatMessagesAllocates (family `readers`) ----
+	out = append(out, factsC17Concat(r)...)
 	return out
 }
